@@ -59,7 +59,8 @@ def coq_files() -> t.List[str]:
     out = []
     for sub in ("Prelude", "gen", "Spec", "Model", "Proofs", "Properties", "Refuted"):
         out += sorted(glob.glob(os.path.join(COQ, sub, "*.v")))
-    return [os.path.relpath(p, COQ) for p in out]
+    # files whose name starts with '_' or '.' are scratch files of whoever is working there
+    return [os.path.relpath(p, COQ) for p in out if not os.path.basename(p).startswith(("_", "."))]
 
 
 def ensure_makefile() -> None:
@@ -70,6 +71,10 @@ def ensure_makefile() -> None:
     if old != text or not os.path.exists(os.path.join(COQ, "Makefile")):
         with open(path, "w") as fh:
             fh.write(text)
+        try:
+            os.remove(os.path.join(COQ, ".Makefile.d"))  # stale dependencies of files that no longer exist
+        except OSError:
+            pass
         rc, out = sh(["coq_makefile", "-f", "_CoqProject", "-o", "Makefile"], 120, cwd=COQ)
         if rc != 0:
             raise RuntimeError("coq_makefile failed: " + out)
